@@ -1,6 +1,7 @@
 """C12 — one active operation per session and an honest output-length protocol (DESIGN.md §3 C12)."""
 import re
 from engine.rulelib import *
+from engine.interp import Outcomes
 from engine import bounds
 
 EXPLANATION = (
@@ -326,6 +327,37 @@ def r1e_wrong_part_mode(ctx, prog):
                 r.ok(g['qname'], site, '%d exits, all after resetOp()' % len(taken), file=g['file'], line=g['line'])
 
 
+def r1f_dispatch_keeps_soft_answers(ctx, prog):
+    """The API-level functions that only dispatch to a worker (C_SignFinal -> MacSignFinal / AsymSignFinal ...) hand the worker's answer on.  When that answer is
+    CKR_BUFFER_TOO_SMALL the operation must still be there: the dispatcher is evaluated with every worker answering CKR_BUFFER_TOO_SMALL - it may not call resetOp()."""
+    r = ctx.rule('C12.R1f', 'a dispatching entry point does not end the operation when its worker answered CKR_BUFFER_TOO_SMALL', floor=6, engine='E1+E3 finite-domain evaluation of the dispatcher')
+    small = macro(prog, 'CKR_BUFFER_TOO_SMALL')
+    for api, op in sorted(API_OP.items()):
+        f = prog.fn('SoftHSM::' + api)
+        hs = helpers_of(prog, f)
+        buf, plen = out_buffer(f)
+        if not hs or not plen:
+            continue
+        ctx.analysed(f)
+        cenv = {'isInitialised': 1, re.compile(r'getOpType(@\d+)?\(\w+\)'): macro(prog, 'SESSION_OP_' + op), re.compile(r'getAllow(Multi|Single)PartOp(@\d+)?\(\w+\)'): 1, plen: 1}
+        for h in hs:
+            cenv[re.compile(r'%s(@\d+)?\(.*\)' % re.escape(short(h['qname'])))] = small
+        o = Outcomes(f, prog, cenv=cenv, record_calls={'resetOp'} | {short(h['qname']) for h in hs})
+        o.CAP = 64
+        o.go()
+        r.paths += len(o.outcomes)
+        site = 'worker answers CKR_BUFFER_TOO_SMALL'
+        disp = [oc for oc in o.outcomes if any(e[0] == 'call' and e[1] in {short(h['qname']) for h in hs} for e in oc['events'])]
+        bad = [oc for oc in disp if any(e[0] == 'call' and e[1] == 'resetOp' for e in oc['events'])]
+        if not disp:
+            r.undecided(f['qname'], site, 'no path reaches a worker under the assignment', file=f['file'], line=f['line'])
+        elif bad:
+            r.violation(f['qname'], site, 'after the worker answered CKR_BUFFER_TOO_SMALL the dispatcher calls resetOp(): the caller who comes back with a larger buffer finds no operation (CKR_OPERATION_NOT_INITIALIZED), the data fed so far is lost',
+                        file=f['file'], line=bad[0]['line'], path=bad[0]['path'])
+        else:
+            r.ok(f['qname'], site, '%d dispatching paths, none resets' % len(disp), file=f['file'], line=f['line'])
+
+
 def r2_bounds(ctx, prog):
     r = ctx.rule('C12.R2', 'bytes written into a caller buffer <= announced length; bytes read <= source size; reported length == bytes written', floor=18, engine='E8')
     todo = []
@@ -488,6 +520,7 @@ def run(ctx):
     r1b_gate(ctx, prog)
     r1cd_typestate(ctx, prog)
     r1e_wrong_part_mode(ctx, prog)
+    r1f_dispatch_keeps_soft_answers(ctx, prog)
     r2_bounds(ctx, prog)
     r2c_reported_bound(ctx, prog)
     r3_length_siblings(ctx, prog)
